@@ -227,6 +227,89 @@ func genCase(r *fw.Rand, index string) fw.Case {
 	return fw.Case{Ops: ops, Tags: []string{"mixed", "index=" + index}}
 }
 
+// genTombCase: the delete / rewrite / snapshot interplay on one or two series: points,
+// snapshot, a range delete, new points inside and around the deleted range, another snapshot
+// (or not: the rewrite stays in the cache), repeated; every field read in both directions.
+// Optionally a cache snapshot is held in flight (written, not installed) while points are
+// overwritten and read.
+func genTombCase(r *fw.Rand, index string) fw.Case {
+	ops := []string{"reset " + index}
+	series := [][2]string{{"m0", "host=a"}}
+	if r.Bool() {
+		series = append(series, [2]string{"m0", "-"})
+	}
+	fields := []string{"n", "v", "s", "b", "u"}[:2+r.Intn(4)]
+	base := int64(1600000000000000000)
+	batch := func(lo, hi int) string {
+		var pts []string
+		for i := 0; i < 2+r.Intn(8); i++ {
+			sr := series[r.Intn(len(series))]
+			var fs []string
+			for _, fn := range fields {
+				if r.Intn(3) > 0 || len(fs) == 0 {
+					fs = append(fs, fn+"="+genVal(r, fieldTypes[fn]))
+				}
+			}
+			t := base + int64(lo+r.Intn(hi-lo+1))*1000
+			pts = append(pts, fmt.Sprintf("%s|%s|%d|%s", sr[0], sr[1], t, strings.Join(fs, ",")))
+		}
+		return strings.Join(pts, ";")
+	}
+	reads := func() {
+		for _, sr := range series {
+			for _, fn := range fields {
+				for _, dir := range []string{"asc", "desc"} {
+					if r.Intn(4) == 0 {
+						continue
+					}
+					ops = append(ops, fmt.Sprintf("read %s %s %s %d %d %s", sr[0], sr[1], fn, models.MinNanoTime, models.MaxNanoTime, dir))
+				}
+			}
+		}
+	}
+	nfiles := 0
+	ops = append(ops, "w "+batch(0, 20), "snap")
+	nfiles++
+	for round := 0; round < 1+r.Intn(4); round++ {
+		switch r.Intn(5) {
+		case 0, 1, 2:
+			a := r.Intn(18)
+			b := a + r.Intn(8)
+			ops = append(ops, fmt.Sprintf("del m0 %s %d %d", []string{"-", "host=a"}[r.Intn(2)], base+int64(a)*1000, base+int64(b)*1000))
+			ops = append(ops, "w "+batch(maxInt(0, a-2), b+2))
+			if r.Intn(3) > 0 {
+				ops = append(ops, "snap")
+				nfiles++
+			}
+		case 3:
+			// overwrite and read while a snapshot is in flight
+			ops = append(ops, "w "+batch(0, 20), "snaphold", "w "+batch(0, 20))
+			reads()
+			ops = append(ops, "snaprelease")
+			nfiles++
+		default:
+			ops = append(ops, "w "+batch(0, 25))
+			if nfiles >= 2 && r.Bool() {
+				ops = append(ops, fmt.Sprintf("compact %s 0 %d", []string{"full", "fast"}[r.Intn(2)], nfiles-1))
+				nfiles = 1
+			}
+		}
+		reads()
+		if r.Intn(5) == 0 {
+			ops = append(ops, "reopen")
+			reads()
+		}
+	}
+	return fw.Case{Ops: ops, Tags: []string{"tomb", "index=" + index}}
+}
+
+func maxInt(a, b int) int {
+	if a > b {
+		return a
+	}
+	return b
+}
+
 // genBackfill builds one series with many 1000-point blocks spread over several files in
 // interleaved runs, later files overwriting earlier ones.
 func genBackfill(r *fw.Rand) fw.Case {
@@ -285,6 +368,9 @@ func (Prop) Generate(r *fw.Rand, tier string) []fw.Case {
 	}
 	for i := 0; i < nb; i++ {
 		cases = append(cases, genBackfill(r.Fork()))
+	}
+	for i := 0; i < n/2; i++ {
+		cases = append(cases, genTombCase(r.Fork(), []string{"inmem", "tsi1"}[i%2]))
 	}
 	for i := 0; i < n; i++ {
 		idx := "inmem"
